@@ -83,6 +83,14 @@ func e2eDatasets(thorough bool) []e2eDataset {
 		lim = append(lim, series{Gen: "limit", N: 8193, Split: 0}, series{Gen: "limit", N: 8194, Split: 1}, series{Gen: "limit", N: 16385, Split: 1}, series{Gen: "limit", N: 16385, Split: 0})
 	}
 	add("l", lim, 100, 0)
+	// length boundaries over gRPC: the long row in the middle of a 4-row (dictionary) and a 260-row (plain) block
+	var ln []series
+	for _, l := range lengthBoundaries {
+		if l >= 254 {
+			ln = append(ln, series{Gen: "len", L: l, Pos: 1, N: 4}, series{Gen: "len", L: l, Pos: 2, N: 260})
+		}
+	}
+	add("n", ln, 100, 1)
 	return out
 }
 
